@@ -33,7 +33,7 @@ ABS_FLOOR = 1e-10
 
 
 def generate(rng, tier, index):
-    lossy = bool(rng.uniform() < 0.25)
+    lossy = bool(rng.uniform() < 0.4)
     spec = specgen.rand_scene(
         rng, T=(3, 12), shape=(4, 7), pml=(2, 4), p_nonuniform=0.3, tiers=("iso", "diag"), sigma_e=lossy, mu=True,
         source_kinds=("dipole", "dipole", "uniform_plane"), n_sources=(1, 2), n_detectors=(1, 3), switches=True,
@@ -76,6 +76,11 @@ def generate(rng, tier, index):
     if rng.uniform() < 0.75:
         spec["sources"][0].pop("switch", None)
         spec["detectors"][0].pop("switch", None)
+    if m.get("sigma_h_tier"):
+        # a source that injects H inside the magnetically lossy medium (source handling and the lossy H update do not commute)
+        s0 = specgen.rand_dipole(rng, "smag", spec["shape"], specgen.inner_region(spec["shape"], spec["faces"]), spec["steps"], allow_switch=False)
+        s0["source_type"] = "magnetic"
+        spec["sources"].append(s0)
     T = spec["steps"]
     spec["gradient"] = {"method": "reversible", "recorder": []}
     is_lossy = bool(m.get("sigma_e_tier"))
